@@ -16,7 +16,7 @@ MANIFEST = dict(
               'TLC-simulated and seeded random histories; implementation records validated by TLC (VpkTrace)',
     category='model_checking',
     text='TLC exhausts the VPK design for six placement configurations (preload limit None / 0 / 2 / 1024 / 70000, '
-         'single-file VPK; content sizes around the limit and around the 16-bit preload length): every file reads back '
+         'single-file VPK; archive files named pak01_dir.vpk, _dir.vpk (empty prefix), x_dir_dir.vpk, foo.vpk, upper-case variants; content sizes around the limit and around the 16-bit preload length): every file reads back '
          'what was last written and verifies, in the object and in what a fresh reader of the _dir file sees, archives '
          'are append-only, read-only objects reject every mutation, failed calls change nothing. Every transition of '
          'the bounded models is executed on a real VPK in a temporary directory (one covering walk per configuration; '
@@ -34,15 +34,16 @@ MANIFEST = dict(
 )
 
 CONFIGS = {
-    'L2': {'sz': [2, 3, 4], 'limit': 2, 'single': False},
-    'L0': {'sz': [1, 2, 3], 'limit': 0, 'single': False},
-    'LN': {'sz': [1, 65535, 65536], 'limit': -1, 'single': False},
-    'S': {'sz': [1, 65535, 65536], 'limit': 2, 'single': True},
-    'LK': {'sz': [1024, 1025, 70000], 'limit': 1024, 'single': False},
-    'LH': {'sz': [65535, 65536, 300000], 'limit': 70000, 'single': False},
+    # fname must be the FName of specs/Vpk_<id>_edges.cfg
+    'L2': {'sz': [2, 3, 4], 'limit': 2, 'fname': 'pak01_dir.vpk'},
+    'L0': {'sz': [1, 2, 3], 'limit': 0, 'fname': '_dir.vpk'},                   # empty prefix
+    'LN': {'sz': [1, 65535, 65536], 'limit': -1, 'fname': 'x_dir_dir.vpk'},
+    'S': {'sz': [1, 65535, 65536], 'limit': 2, 'fname': 'foo.vpk'},              # single file
+    'LK': {'sz': [1024, 1025, 70000], 'limit': 1024, 'fname': 'pak01_dir.vpk'},
+    'LH': {'sz': [65535, 65536, 300000], 'limit': 70000, 'fname': '_dir.vpk'},
 }
-SIMS = {'K': {'sz': [1024, 1025, 70000], 'limit': 1024, 'single': False},
-        'H': {'sz': [65535, 65536, 300000], 'limit': 70000, 'single': False}}
+SIMS = {'K': {'sz': [1024, 1025, 70000], 'limit': 1024, 'fname': 'x_dir_dir.vpk'},
+        'H': {'sz': [65535, 65536, 300000], 'limit': 70000, 'fname': '_dir.vpk'}}
 WANT_OPS = {'reopen', 'newfile', 'addfile', 'write', 'del', 'writedir'}
 
 
